@@ -272,7 +272,7 @@ fn strings(cx: &mut Cx) {
     }
     // move-shaped strings: every canonical move text with every one-character suffix / edit
     let tail: Vec<char> = "nbrqkpNBRQKP18ah x=+#é\u{301}0".chars().collect();
-    let n_moves = cx.budget(40_000, 2_000_000);
+    let n_moves = cx.budget(4_000_000, 100_000_000);
     for _ in 0..n_moves {
         let f = cx.rng.usize(64);
         let t = cx.rng.usize(64);
@@ -291,7 +291,7 @@ fn strings(cx: &mut Cx) {
         cx.count("move_shaped_strings");
     }
     // canonical texts of the small types with edits, and random unicode
-    let n_rand = cx.budget(40_000, 4_000_000);
+    let n_rand = cx.budget(4_000_000, 100_000_000);
     for i in 0..n_rand {
         let s = match i % 5 {
             0 => random_unicode(&mut cx.rng, 6),
